@@ -241,3 +241,21 @@ gproof! { #[kani::unwind(4)] fn c15_unique_uninit_slice_zst_header_with_drop() {
     drop(u);
     assert!(unsafe { vrt::ZDROPS } == 1 && vrt::drops() == 0 && vrt::gd(1) && vrt::glive(0));
 } }
+
+// @h props=C15,C01 bounded=len<=3 fuc=Arc::new_uninit_slice,Arc::assume_init,UniqueArc::assume_init_slice note="zero-sized element type: assume_init keeps the length, every element is destroyed exactly once afterwards, none before"
+gproof! { #[kani::unwind(5)] fn c15_uninit_slice_zero_sized_elements() {
+    let len: usize = kani::any();
+    kani::assume(len <= 3);
+    let a: Arc<[MaybeUninit<Zd>]> = Arc::new_uninit_slice(len);
+    assert!(a.len() == len);
+    let early: bool = kani::any();
+    if early {
+        drop(a);
+        assert!(unsafe { vrt::ZDROPS } == 0 && vrt::glive(0));
+    } else {
+        let b: Arc<[Zd]> = unsafe { a.assume_init() };
+        assert!(b.len() == len && unsafe { vrt::ZDROPS } == 0);
+        drop(b);
+        assert!(unsafe { vrt::ZDROPS } == len && vrt::glive(0));
+    }
+} }
